@@ -15,7 +15,7 @@ from checks import hashcommon as hc
 gen = hc.gen
 DRIVERS = hc.DRIVERS
 PID = "C01"
-PROFILE = {"mix": 6, "occ": 3, "reject": 1, "inflight": 1}
+PROFILE = {"mix": 6, "occ": 3, "reject": 1, "inflight": 1, "pad_fixed": 1}
 
 
 def run(tier, replay=None, pid=PID, profile=PROFILE, k=101, nq=16, nt=400):
